@@ -31,6 +31,23 @@ def tgt_arg(host, port):
         return "D%s:%d" % (host.encode().hex(), port)
 
 
+# further upstream answers that do NOT establish the path (interim 1xx then the final refusal, a lone 1xx, redirects,
+# authentication required, server errors, odd codes; SOCKS reply codes other than success)
+HUP_REFUSALS = {
+    "hup100": b"HTTP/1.1 100 Continue\r\n\r\nHTTP/1.1 403 Forbidden\r\nContent-Length: 0\r\n\r\n",
+    "hup101": b"HTTP/1.1 101 Switching Protocols\r\nUpgrade: x\r\n\r\n",
+    "hup199": b"HTTP/1.1 199 Odd\r\n\r\n",
+    "hup099": b"HTTP/1.1 099 Odd\r\n\r\n",
+    "hup302": b"HTTP/1.1 302 Found\r\nLocation: http://elsewhere/\r\nContent-Length: 0\r\n\r\n",
+    "hup407": b"HTTP/1.1 407 Proxy Authentication Required\r\nProxy-Authenticate: Basic realm=x\r\nContent-Length: 0\r\n\r\n",
+    "hup500": b"HTTP/1.1 500 Internal Server Error\r\nContent-Length: 0\r\n\r\n",
+    "hup999": b"HTTP/1.1 999 Odd\r\n\r\n",
+}
+S5_REFUSALS = {"s5r1": 1, "s5r2": 2, "s5r4": 4, "s5r8": 8, "s5rff": 255}
+S4_REFUSALS = {"s4r92": 92, "s4r93": 93, "s4r0": 0, "s4r255": 255}
+MORE_FAILING = list(HUP_REFUSALS) + list(S5_REFUSALS) + list(S4_REFUSALS)
+
+
 class World:
     """origins, fake upstream proxies, and one proxy instance routing by target port"""
 
@@ -44,7 +61,7 @@ class World:
         self.closed_port = e2e.free_port()
         self.deny_port = e2e.free_port()
         self.norule_port = e2e.free_port()
-        for k in ("hup403", "hup403u", "hupclose", "hupgarbage", "s5no", "s5die", "s4no", "dead", "hup200junk"):
+        for k in ["hup403", "hup403u", "hupclose", "hupgarbage", "s5no", "s5die", "s4no", "dead", "hup200junk"] + MORE_FAILING:
             self.origin[k] = mk(e2e.echo_handler)          # must never be reached
         self.up = {
             "hup": mk(e2e.http_upstream(relay_to=(LOOP, self.origin["hup"].port))),
@@ -59,14 +76,20 @@ class World:
             "s4": mk(e2e.socks4_upstream(code=90, relay_to=(LOOP, self.origin["s4"].port))),
             "s4no": mk(e2e.socks4_upstream(code=91)),
         }
+        for k, v in HUP_REFUSALS.items():
+            self.up[k] = mk(e2e.http_upstream(verdict=v))
+        for k, v in S5_REFUSALS.items():
+            self.up[k] = mk(e2e.socks5_upstream(rep=v))
+        for k, v in S4_REFUSALS.items():
+            self.up[k] = mk(e2e.socks4_upstream(code=v))
         # domain targets are only sent through upstream proxies, which relay to a fixed origin
         conns = [{"name": "direct", "dns": {"servers": "system", "family": "V4Only"}}]
-        for k in ("hup", "hupslow", "hup403", "hup403u", "hupclose", "hupgarbage"):
+        for k in ["hup", "hupslow", "hup403", "hup403u", "hupclose", "hupgarbage"] + list(HUP_REFUSALS):
             conns.append({"name": k, "type": "http", "server": LOOP, "port": self.up[k].port})
         conns.append({"name": "dead", "type": "http", "server": LOOP, "port": self.closed_port})
-        for k in ("s5", "s5no", "s5die"):
+        for k in ["s5", "s5no", "s5die"] + list(S5_REFUSALS):
             conns.append({"name": k, "type": "socks", "server": LOOP, "port": self.up[k].port})
-        for k in ("s4", "s4no"):
+        for k in ["s4", "s4no"] + list(S4_REFUSALS):
             conns.append({"name": k, "type": "socks", "server": LOOP, "port": self.up[k].port, "version": 4})
         conns.append({"name": "lb", "type": "loadbalance", "connectors": ["direct", "hup"]})
         self.route_port = {}
@@ -111,6 +134,42 @@ class World:
 
 ESTABLISHING = {"direct", "hup", "hupslow", "s5", "s4", "lb"}
 FAILING = {"refused": 1, "hup403": 1, "hup403u": 1, "hupclose": 1, "hupgarbage": 1, "s5no": 1, "s5die": 1, "s4no": 1, "dead": 1, "deny": 0, "norule": 0}
+FAILING.update({k: 1 for k in MORE_FAILING})
+
+
+def upstream_answer_cases(r, mult):
+    """answers of a next-hop HTTP proxy to the connector's CONNECT: (description, chunks, udp)"""
+    out = []
+    codes = [100, 101, 102, 103, 199, 200, 201, 202, 204, 206, 226, 299, 300, 301, 302, 304, 400, 403, 404, 407, 500, 502, 503, 504, 599, 600, 999, 0, 1, 20, 99]
+    def seg(b, how):
+        if how == "whole" or len(b) < 2:
+            return [b]
+        if how == "bytes":
+            return [b[i:i + 1] for i in range(len(b))]
+        cuts = sorted(r.sample(range(1, len(b)), min(len(b) - 1, r.randint(1, 4))))
+        return [b[i:j] for i, j in zip([0] + cuts, cuts + [len(b)])]
+    for c in codes:
+        for hdrs in (b"", b"Content-Length: 0\r\n", b"Session-Id: 7\r\n"):
+            for udp in (False, True):
+                ans = b"HTTP/1.1 %03d Reason\r\n" % c + hdrs + b"\r\n"
+                out.append(("status %03d" % c, seg(ans, r.choice(["whole", "cuts", "bytes"] if mult > 1 else ["whole", "cuts"])), udp))
+    for c in (100, 101, 102, 103, 199):
+        for fin in (200, 403, 502):
+            ans = b"HTTP/1.1 %d Interim\r\n\r\nHTTP/1.1 %d Final\r\nSession-Id: 9\r\n\r\n" % (c, fin)
+            out.append(("interim %d then %d" % (c, fin), seg(ans, "cuts"), False))
+            out.append(("interim %d then %d" % (c, fin), seg(ans, "whole"), True))
+    for what, ans in (("HTTP/1.0 200", b"HTTP/1.0 200 OK\r\n\r\n"), ("no reason phrase", b"HTTP/1.1 200\r\n\r\n"), ("no reason, trailing space", b"HTTP/1.1 200 \r\n\r\n"),
+                      ("lower case", b"http/1.1 200 ok\r\n\r\n"), ("HTTP/2", b"HTTP/2 200 OK\r\n\r\n"), ("four digits", b"HTTP/1.1 2000 OK\r\n\r\n"), ("two digits", b"HTTP/1.1 20 OK\r\n\r\n"),
+                      ("signed", b"HTTP/1.1 +200 OK\r\n\r\n"), ("65736 = 200 mod 65536", b"HTTP/1.1 65736 OK\r\n\r\n"), ("head cut short", b"HTTP/1.1 200 OK\r\nX: y\r\n"), ("status line only", b"HTTP/1.1 200 OK\r\n"),
+                      ("empty", b""), ("bare LF", b"HTTP/1.1 200 OK\n\n"), ("garbage", b"SSH-2.0-x\r\n\r\n"), ("200 in the reason", b"HTTP/1.1 403 200\r\n\r\n"), ("200 in a header", b"HTTP/1.1 403 No\r\nX-Status: 200\r\n\r\n")):
+        for udp in (False, True):
+            out.append((what, seg(ans, "cuts" if ans else "whole"), udp))
+    for what, h in (("Session-Id max", b"Session-Id: 4294967295"), ("Session-Id 2^32", b"Session-Id: 4294967296"), ("Session-Id text", b"Session-Id: x"), ("Session-Id negative", b"Session-Id: -1"),
+                    ("Session-Id lower case name", b"session-id: 5"), ("Session-Id spaces", b"Session-Id:   5  "), ("Session-Id empty", b"Session-Id: "), ("Session-Id twice", b"Session-Id: 1\r\nSession-Id: 2"),
+                    ("Session-Id hex", b"Session-Id: 0x10"), ("Session-Id long", b"Session-Id: 000000000000000000005")):
+        out.append((what, seg(b"HTTP/1.1 200 OK\r\n" + h + b"\r\n\r\n", "cuts"), True))
+        out.append((what, seg(b"HTTP/1.1 200 OK\r\n" + h + b"\r\n\r\n", "whole"), False))
+    return out * 1 if mult == 1 else out + [(w_, seg(b"".join(ch), "cuts"), u) for w_, ch, u in out for _ in range(mult - 1)]
 
 
 def run_tcp(w, proto, route, host):
@@ -363,7 +422,7 @@ def run(tier, seed, replay=None):
         if "error" in h:
             rep.fail("C06: %s listener, route %s: %s" % (h["proto"], h["route"], h["error"]), {"kind": "failing-input", "scenario": jsonable(h)})
     # origins behind failing routes must never have been reached; the others as often as success was claimed
-    for k in ("hup403", "hup403u", "hupclose", "hupgarbage", "s5no", "s5die", "s4no", "dead"):
+    for k in ["hup403", "hup403u", "hupclose", "hupgarbage", "s5no", "s5die", "s4no", "dead"] + MORE_FAILING:
         if origin_seen.get(k):
             rep.fail("C06: origin behind route %s was reached %d times" % (k, origin_seen[k]), {"kind": "failing-input", "scenario": k})
     claimed_by_route = collections.Counter(h["route"] for h in hists if h.get("claimed") and h["kind"] == "tcp")
@@ -391,10 +450,40 @@ def run(tier, seed, replay=None):
         elif len(got) != ok_len:
             rep.fail("C06: SOCKS5 UDP association that idles out: control connection received %r (a success reply followed by %d more bytes)" % (got[:30], len(got) - ok_len),
                      {"kind": "failing-input", "scenario": jsonable(h)}, tags=["C06-udp-associate-double-reply"])
+    # ---- what the HTTP connector makes of the next hop's answer: the real h11c_connect against the model ------------
+    import codec_cases as cdc
+    import re as _re
+    ucases = upstream_answer_cases(r, 1 if tier == "quick" else 6)
+    tgt = cdc.tgt_domain(b"origin.test", 443)
+    ulines = ["connect_write %s %s%s" % (tgt, cdc.chunks_arg(ch), " udp" if udp else "") for _, ch, udp in ucases]
+    ui = run_impl(driver, ulines)
+    um = run_model(model, ulines)
+    n_udiff = 0
+    for (what, ch, udp), oi, om in zip(ucases, ui, um):
+        n_eval += 1
+        full = b"".join(ch)
+        # canonical spelling only: the property does not say how lenient the reading of odd but legal HTTP (empty reason phrase, empty header value) must be
+        m = _re.match(rb"^HTTP/1\.[01] (\d{3}) [!-~][^\r\n]*\r\n((?:[!-9;-~]+: [!-~][^\r\n]*\r\n)*)\r\n", full)
+        strict_code = int(m.group(1)) if m else None
+        m = _re.match(rb"(?i)^HTTP/[0-9.]+ +\+?([0-9]+)", full)
+        code = int(m.group(1)) if m else None
+        complete = any(x in full for x in (b"\r\n\r\n", b"\n\n", b"\n\r\n"))
+        rp = {"kind": "failing-input", "cases": [dict(kind="connect", line="connect_write %s %s%s" % (tgt, cdc.chunks_arg(ch), " udp" if udp else ""), meta=dict(what=what))], "answer": full[:200].decode("latin1"), "observed": oi, "model": om}
+        told = oi.startswith("OK ")
+        # oracle from the property alone: "established" only on a complete final 2xx answer; a plain complete 200 establishes
+        if told and (code is None or not 200 <= code <= 299 or not complete):
+            rep.fail("C06: HTTP connector, upstream answer %r (%s): the tunnel is reported as established" % (full[:60], what), rp)
+        elif not told and strict_code == 200 and not udp and oi.startswith("ERR"):
+            rep.fail("C06: HTTP connector, upstream answer %r (%s): a complete 200 is treated as a failure" % (full[:60], what), rp)
+        elif canon(oi).split(" ")[0] != canon(om).split(" ")[0]:
+            n_udiff += 1
+            rep.fail("C06: HTTP connector, upstream answer %r (%s): the implementation says %s, the model's connect_reply says %s" % (full[:60], what, oi[:20], om[:20]), rp)
+        outcomes["upstream-answer:" + oi.split(" ")[0]] += 1
     rep.coverage.update({
+        "upstream_answer_cases": len(ucases), "upstream_answer_disagreements": n_udiff,
         "evaluations": n_eval,
         "distinct_nontrivial": len(shapes),
-        "rule": "3 listener protocols x 16 routes (6 establishing incl. slow upstream and load balancer; refused, 403, upstream closes, garbage verdict, SOCKS5 rep 5, SOCKS5 dies after greeting, SOCKS4 91, dead upstream, deny, no rule) x IPv4/domain targets; listener-level refusals (BIND, unknown cmd, UDP not allowed, bad password, unknown user, no common method, GET, bad Proxy-Protocol, UDP over SOCKS4); SOCKS5 UDP association idling out",
+        "rule": "3 listener protocols x 33 routes (6 establishing incl. slow upstream and load balancer; refused, 403, upstream closes, garbage verdict, interim 100 then 403, lone 101 / 199 / 099, 302, 407, 500, 999, SOCKS5 rep 1 2 4 5 8 255, SOCKS5 dies after greeting, SOCKS4 91 92 93 0 255, dead upstream, deny, no rule) x IPv4/domain targets; listener-level refusals (BIND, unknown cmd, UDP not allowed, bad password, unknown user, no common method, GET, bad Proxy-Protocol, UDP over SOCKS4); SOCKS5 UDP association idling out",
         "input_distribution": dict(outcomes),
         "origin_accepts": origin_seen,
         "rounds": rounds,
